@@ -17,7 +17,7 @@ import re
 
 from vf import fm
 from vf.core import Collector, Prop, shard_rng
-from vf.gen_para import (CODE_SPANS, HAZ_ESCAPED, HAZ_UNESCAPED, HTML, LINKS, PAIRED, PREFIXES, TAGS, para_words,
+from vf.gen_para import (CODE_SPANS, HAZ_ESCAPED, HAZ_UNESCAPED, HTML, LINKS, PAIRED, PREFIXES, TAGS, long_atom, para_words,
                          plain_word)
 from vf.wrapjudge import judge, norm
 
@@ -85,6 +85,18 @@ class C05(Prop):
                 yield {"kind": "exh", "width": w, "ic": ic}
         n = (2500 if tier == "quick" else 25000)
         for i in range(n):
+            if i % 400 == 11:
+                # one paragraph with hundreds or thousands of atomic constructs (an index, a table of them, a counter with a fixed
+                # number of digits ...), and one with a single construct of several thousand characters
+                many = [w for s_ in para_words(r, r.choice([12, 30, 110]), atoms=0.5, haz=0.05, atom_pool=CODE_SPANS + LINKS + HTML + PAIRED) for w in s_]
+                big = [w for s_ in para_words(r, 3, atoms=0.1, haz=0.1, atom_pool=CODE_SPANS + LINKS + HTML) for w in s_]
+                big.insert(r.randint(1, len(big) - 1), long_atom(r, r.choice(["code", "link", "html", "hcomment", "jtag"])))
+                for ws_ in (many, big):
+                    ii, si = r.choice(PREFIXES)
+                    w_ = r.choice([r.randint(8, 40), 88, 0])
+                    yield {"kind": "lines", "text": " ".join(ws_), "width": w_, "ic": 0, "so": r.choice([0, 2]), "md": True, "plain": False, "scale": len(ws_)}
+                    yield {"kind": "wrapper", "segs": [" ".join(ws_)], "sep": "none", "width": w_, "ii": ii, "si": si,
+                           "semantic": r.random() < 0.5, "hb": "\\\n", "scale": len(ws_)}
             k = r.random()
             width = r.choice([r.randint(1, 12), r.randint(8, 40), r.randint(20, 100), 88, 0, -1, -5]) if r.random() < 0.9 else 10 ** 6
             atoms = r.choice([0, 0, 0.1, 0.3])
@@ -146,6 +158,11 @@ class C05(Prop):
             elif k < 0.83:
                 cj = ["中文", "日本語", "汉字", "ｆｕｌｌ", "한국어", "e\u0301te\u0301", "naı\u0308ve", "wide漢字mix"]
                 ws = [r.choice(cj) if r.random() < 0.5 else plain_word(r, 8) for _ in range(r.randint(3, 14))]
+                if r.random() < 0.6:
+                    # short sentences: the sentence wrapper's short-line merge has to measure with the caller's function too
+                    from vf.gen_para import SENT_END
+                    ws = [w + r.choice(["。", ".", "!", "?"]) if (r.random() < 0.3 and w[-1:].isalpha()) else w for w in ws]
+                    ws.insert(r.randint(1, len(ws)), r.choice(SENT_END))
                 ii, si = r.choice(PREFIXES)
                 yield {"kind": "lenfn", "text": " ".join(ws), "width": r.choice([r.randint(6, 20), r.randint(10, 40)]), "ii": ii, "si": si}
             elif k < 0.90:
@@ -315,8 +332,8 @@ class C05(Prop):
                 col.distinct("lenfn", name, text, width, ii)
             col.count("custom_len_fn_runs")
             devs = judge(text, lines, width, ii, si, fill=fill, allow_escape=False, lenf=dw)
-            # the listed overshoot mechanisms are stated for len(); with another measure only the plain clauses are judged
-            devs = [(k, d) for k, d in devs if not (k == "overlong" and not fill)]
+            # the listed overshoot mechanism (the short-line merge ignores the indent: excess <= indent) is the same under
+            # another measure; _report classifies it with the indents measured by that function
             self._report("para", devs, dict(case, via=name), col, "fill" if fill else "semantic", dw(ii), dw(si))
 
     def _check_wrapper(self, case, col):
